@@ -11,6 +11,8 @@ from typing import cast, NamedTuple, TypedDict
 
 import flask
 from flask_jwt_extended import jwt_required
+from sqlalchemy.exc import IntegrityError
+from sqlalchemy.orm.exc import ObjectDeletedError, StaleDataError
 
 from dashlive.mpeg.dash.content_role import ContentRole
 from dashlive.mpeg.dash.timing import DashTiming
@@ -304,10 +306,17 @@ class AddStream(HTMLHandlerBase):
         if stream is not None:
             errors.append(f'Stream {data["name"]} already exists')
         else:
-            stream, errs = self.add_new_stream(data)
-            errors += errs
+            try:
+                stream, errs = self.add_new_stream(data)
+                errors += errs
+                if not errors:
+                    models.db.session.commit()
+            except IntegrityError:
+                # a request served at the same time has added this stream
+                models.db.session.rollback()
+                stream = None
+                errors.append(f'Stream {data["name"]} already exists')
         if not errors:
-            models.db.session.commit()
             stream = models.MultiPeriodStream.get(name=data["name"])
         return jsonify({
             "success": not errors,
@@ -412,19 +421,28 @@ class EditStream(HTMLHandlerBase):
         current_mps.title = data['title']
         current_mps.options = data.get('options')
         errors: list[str] = []
-        with models.db.session.no_autoflush:
-            for period in data['periods']:
-                err: str | None = process_period(current_mps, period)
-                if err is not None:
-                    errors.append(err)
-            if not errors:
-                models.db.session.flush()
-                models.db.session.commit()
+        model: JsonObject | None = None
+        try:
+            with models.db.session.no_autoflush:
+                for period in data['periods']:
+                    err: str | None = process_period(current_mps, period)
+                    if err is not None:
+                        errors.append(err)
+                if not errors:
+                    models.db.session.flush()
+                    models.db.session.commit()
+            model = mps_as_dict(current_mps)
+        except (IntegrityError, StaleDataError, ObjectDeletedError) as err:
+            # a request served at the same time has taken the new name, or
+            # has deleted this stream or a stream one of its periods uses
+            logging.warning('Failed to save stream %s: %s', name, err)
+            models.db.session.rollback()
+            errors.append(f'Stream {name} was modified by another request')
         return jsonify({
             'success': errors == [],
             'errors': errors,
             'csrfTokens': {
                 'stream': csrf_token,
             },
-            'model': mps_as_dict(current_mps),
+            'model': model,
         })
